@@ -13,52 +13,52 @@ import (
 var profiles = map[string]Profile{
 	"C01": {Name: "C01", MinOps: 15, MaxOps: 60, Keys: 10, EmptyVals: true, ObsEvery: 6,
 		Initials: []int64{-1, -1, 1, 7, 1 << 40},
-		W: map[string]int{"set": 40, "rm": 18, "save": 12, "rollback": 3, "reopen": 4, "load": 3, "prune": 4, "lvfo": 2, "setnil": 2, "read": 10}},
+		W:        map[string]int{"set": 40, "rm": 18, "save": 12, "rollback": 3, "reopen": 4, "load": 3, "prune": 4, "lvfo": 2, "setnil": 2, "read": 10}},
 	// C02: hashes with read-only calls sprinkled anywhere, initial versions, reopen/prune/rollback points
 	"C02": {Name: "C02", MinOps: 15, MaxOps: 70, Keys: 12, EmptyVals: true, ObsEvery: 0, Touch: true,
 		Initials: []int64{-1, 1, 7, 10, 1 << 40},
-		W: map[string]int{"set": 40, "rm": 15, "save": 14, "rollback": 3, "reopen": 4, "prune": 3, "lvfo": 2, "touch": 14, "whash": 8, "read": 6}},
+		W:        map[string]int{"set": 40, "rm": 15, "save": 14, "rollback": 3, "reopen": 4, "prune": 3, "lvfo": 2, "touch": 14, "whash": 8, "read": 6}},
 	// C14: version bookkeeping, overwrites, loads of every kind
 	"C14": {Name: "C14", MinOps: 12, MaxOps: 45, Keys: 5, EmptyVals: false, ObsEvery: 3,
 		Initials: []int64{-1, -1, 1, 7, 1 << 40},
-		W: map[string]int{"set": 18, "rm": 10, "save": 22, "rollback": 3, "reopen": 8, "load": 8, "prune": 8, "lvfo": 4, "resave": 8}},
+		W:        map[string]int{"set": 18, "rm": 10, "save": 22, "rollback": 3, "reopen": 8, "load": 8, "prune": 8, "lvfo": 4, "resave": 8}},
 	// C11: balance under ordered insertions and removals
 	"C11": {Name: "C11", MinOps: 30, MaxOps: 150, Keys: 40, EmptyVals: false, ObsEvery: 25,
 		W: map[string]int{"set": 60, "rm": 22, "save": 6, "reopen": 1, "costs": 4}},
 	// C09: rollback / LoadVersionForOverwriting heavy
 	"C09": {Name: "C09", MinOps: 15, MaxOps: 60, Keys: 8, EmptyVals: true, ObsEvery: 5, ToggleFast: false,
 		Initials: []int64{-1, -1, 1, 7},
-		W: map[string]int{"set": 35, "rm": 14, "save": 16, "rollback": 8, "reopen": 4, "prune": 4, "lvfo": 9, "load": 2}},
+		W:        map[string]int{"set": 35, "rm": 14, "save": 16, "rollback": 8, "reopen": 4, "prune": 4, "lvfo": 9, "load": 2}},
 	// C04: pruning heavy, commits without writes, single-leaf roots
 	"C04": {Name: "C04", MinOps: 15, MaxOps: 60, Keys: 6, EmptyVals: true, ObsEvery: 4,
 		Initials: []int64{-1, -1, 1, 7},
-		W: map[string]int{"set": 25, "rm": 14, "save": 25, "rollback": 3, "reopen": 6, "prune": 14, "lvfo": 3}},
+		W:        map[string]int{"set": 25, "rm": 14, "save": 25, "rollback": 3, "reopen": 6, "prune": 14, "lvfo": 3}},
 	// C07: the fast index against the tree walk, each reopen chooses index on/off
 	"C07": {Name: "C07", MinOps: 15, MaxOps: 60, Keys: 8, EmptyVals: true, ObsEvery: 3, ToggleFast: true,
 		Initials: []int64{-1, -1, 1, 7},
-		W: map[string]int{"set": 35, "rm": 16, "save": 14, "rollback": 5, "reopen": 10, "load": 5, "prune": 3, "lvfo": 4, "read": 10, "reopenat": 3, "staleidx": 3}},
+		W:        map[string]int{"set": 35, "rm": 16, "save": 14, "rollback": 5, "reopen": 10, "load": 5, "prune": 3, "lvfo": 4, "read": 10, "reopenat": 3, "staleidx": 3}},
 	// C03: ICS-23 proofs for every key of every kind of tree
 	"C03": {Name: "C03", MinOps: 6, MaxOps: 40, Keys: 7, EmptyVals: false, ObsEvery: 0,
 		Initials: []int64{-1, -1, 1, 7, 1 << 40},
-		W: map[string]int{"set": 40, "rm": 16, "save": 14, "rollback": 2, "reopen": 3, "prune": 3, "proofs": 12}},
+		W:        map[string]int{"set": 40, "rm": 16, "save": 14, "rollback": 2, "reopen": 3, "prune": 3, "proofs": 12}},
 	"C03e": {Name: "C03e", MinOps: 6, MaxOps: 25, Keys: 5, EmptyVals: true, ObsEvery: 0,
 		W: map[string]int{"set": 40, "rm": 10, "save": 14, "proofs": 12}},
 	// C15: change sets: repeated keys inside a version, set-then-remove, identical rewrites, no-op versions
 	"C15": {Name: "C15", MinOps: 12, MaxOps: 50, Keys: 6, EmptyVals: true, ObsEvery: 0,
 		Initials: []int64{-1, -1, 1, 7},
-		W: map[string]int{"set": 40, "rm": 20, "save": 18, "rollback": 2, "reopen": 3, "prune": 3, "changes": 12, "savecs": 5, "replaycs": 3}},
+		W:        map[string]int{"set": 40, "rm": 20, "save": 18, "rollback": 2, "reopen": 3, "prune": 3, "changes": 12, "savecs": 5, "replaycs": 3}},
 	// C05: crash points of commits, deletions, rollbacks and index builds, small flush thresholds
 	"C05": {Name: "C05", MinOps: 8, MaxOps: 30, Keys: 8, EmptyVals: true, ObsEvery: 0, ToggleFast: true,
 		Initials: []int64{-1, -1, 7},
-		W: map[string]int{"set": 45, "rm": 15, "save": 4, "crashsave": 14, "crashprune": 6, "crashlvfo": 4, "crashreopen": 3, "rollback": 2, "reopen": 2}},
+		W:        map[string]int{"set": 45, "rm": 15, "save": 4, "crashsave": 14, "crashprune": 6, "crashlvfo": 4, "crashreopen": 3, "rollback": 2, "reopen": 2}},
 	// C17: storage faults at every call position
 	"C17": {Name: "C17", MinOps: 8, MaxOps: 30, Keys: 8, EmptyVals: false, ObsEvery: 0,
 		Initials: []int64{-1, -1, 7},
-		W: map[string]int{"set": 45, "rm": 15, "save": 6, "faults": 8, "faultsave": 8, "faultprune": 4, "rollback": 2, "reopen": 2}},
+		W:        map[string]int{"set": 45, "rm": 15, "save": 6, "faults": 8, "faultsave": 8, "faultprune": 4, "rollback": 2, "reopen": 2}},
 	// C10: export / import of any retained version (empty tree, single leaf, inherited root, larger)
 	"C10": {Name: "C10", MinOps: 6, MaxOps: 45, Keys: 9, EmptyVals: true, ObsEvery: 0,
 		Initials: []int64{-1, -1, 1, 7},
-		W: map[string]int{"set": 40, "rm": 16, "save": 16, "rollback": 2, "reopen": 2, "prune": 3, "expimp": 12}},
+		W:        map[string]int{"set": 40, "rm": 16, "save": 16, "rollback": 2, "reopen": 2, "prune": 3, "expimp": 12}},
 	// C08: iterators over every kind of tree state
 	"C08": {Name: "C08", MinOps: 8, MaxOps: 40, Keys: 9, EmptyVals: true, ObsEvery: 0,
 		W: map[string]int{"set": 40, "rm": 18, "save": 10, "rollback": 2, "reopen": 3, "iters": 25}},
@@ -199,6 +199,9 @@ func main() {
 		os.Exit(2)
 	}
 	cmd := os.Args[1]
+	if f, ok := commands[cmd]; ok {
+		os.Exit(f(os.Args[2:]))
+	}
 	fs := flag.NewFlagSet(cmd, flag.ExitOnError)
 	profile := fs.String("profile", "C01", "generator profile")
 	seed := fs.Int64("seed", 1, "PRNG seed")
